@@ -1,10 +1,12 @@
 import EsbuildModel.Impl.VlqBytes
+import EsbuildModel.Impl.Pieces
 
 open EsbuildModel
 
 def dispatch (kernel : String) (args : List String) : String :=
   match kernel with
   | "vlq" => Vlq.driver args
+  | "pieces" => Pieces.driver args
   | _ => "bad-kernel"
 
 partial def loop (hin hout : IO.FS.Stream) : IO Unit := do
